@@ -686,6 +686,11 @@ class AmpBox(Dict[bytes, bytes]):
                 raise TypeError("Unicode key not allowed: %r" % k)
             if type(v) == str:
                 raise TypeError(f"Unicode value for key {k!r} not allowed: {v!r}")
+            if not isinstance(v, bytes):
+                # Anything else that exposes bytes (bytearray, memoryview,
+                # array): len() counts items, not bytes, and the length
+                # prefix written below has to be the number of bytes.
+                v = memoryview(v).tobytes()
             if len(k) == 0:
                 # A zero-length key is the box terminator on the wire.
                 raise ValueError("Empty key not allowed in an AmpBox")
